@@ -106,6 +106,7 @@ def _switch(env, name, optimizer, live):
 def _make_objects():
     objs = {}
     objs["model"] = pyhf.Model(SPEC, poi_name="mu")
+    objs["bmodel"] = pyhf.Model(SPEC, poi_name="mu", batch_size=2)     # batched models keep separate precomputed tensors
     for code in (0, 1, 2, 4, "4p"):
         objs[f"interp{code}"] = pyhf.interpolators.get(code)(HISTO)
     from pyhf.tensor.common import _TensorViewer
@@ -168,6 +169,7 @@ def harness_for(item):
         cfg = m_new.config
         pars = [env.sym(f"p{i}") for i in range(cfg.npars)]
         data = [env.sym(f"d{i}") for i in range(cfg.nmaindata + cfg.nauxdata)]
+        pars2 = [env.sym(f"q{i}") for i in range(cfg.npars)]
         al = [[env.sym(f"a{s}")] for s in range(len(HISTO))]
         outs = {}
         for which, o in (("old", objs), ("new", fresh)):
@@ -175,6 +177,8 @@ def harness_for(item):
             r = {}
             r["expected_data"] = m.expected_data(tb.astensor(pars))
             r["logpdf"] = m.logpdf(tb.astensor(pars), tb.astensor(data))
+            r["batched.expected_data"] = o["bmodel"].expected_data(tb.astensor([pars, pars2]))
+            r["batched.logpdf"] = o["bmodel"].logpdf(tb.astensor([pars, pars2]), tb.astensor(data))
             for code in (0, 1, 2, 4, "4p"):
                 r[f"interp{code}"] = o[f"interp{code}"](tb.astensor(al))
             parts = o["viewer"].split(tb.astensor(pars[:5]))
